@@ -46,6 +46,12 @@ func (p propSpec) Deadline(tier int) time.Duration { return p.DeadlineT[tier] }
 const techSX = "symbolic execution of the real code's go/ssa (GoSX) with SMT (z3) deciding every branch and assertion over all values of the symbolic inputs within the stated bounds; counterexamples replayed natively"
 
 var properties = map[string]propSpec{
+	"C07": {
+		Level: "model_checking", Technique: techSX + "; path parts are symbolic bytes rendered in every spelling and parsed by the real parser",
+		Bounds:  [2]string{"bracket / backtick / JSON-Pointer (with ~0 ~1) / spaced-bracket spellings of a part of 1..2 symbolic pointer-expressible bytes, as match selector, in-operand and quantified collection, on a datum whose key is symbolic (2 bytes); dotted / bracket / pointer / mixed spellings of three-part paths with a symbolic identifier part and index, at top level and inside a quantifier body; exact matching of a 3-byte symbolic part against map keys and struct field/tag names", "same"},
+		Outside: "parts longer than the symbolic bound; parts with bytes outside the JSON-Pointer segment class in the pointer spelling",
+		StepBudget: 600_000_000,
+	},
 	"C16": {
 		Level: "model_checking", Technique: techSX + "; a harness-side printer with symbolic layout/style choices feeds the real parser",
 		Bounds:  [2]string{"trees of depth <= 2 over {not, and, or, any/all in 4 binding modes} with one symbolic leaf (symbolic identifier byte, 8 operators, 4 selector spellings, 5 literal styles with a symbolic byte) and fixed other leaves; per node: optional/required whitespace drawn from {none, space, tab, newline, CR, double}, redundant parentheses; all 4 and/or chains of three operands; quoted literals: 2 verbatim bytes, 2 raw bytes, every single byte via \\xHH, a corpus of nasty strings", "trees of depth <= 3"},
